@@ -457,3 +457,121 @@ func TestRollbackSizeSweep(t *testing.T) {
 		ev.Case(fmt.Sprintf("sweep/%d sizes", len(seen)), true, "rollback-size-sweep", fmt.Sprintf("created-counts-that-are-multiples-of-100:%d", hundreds))
 	})
 }
+
+// A small world: two or three keys with three possible values each, so that whole states come back again and again, in
+// one object's life with many commits, collection passes and checkpoint / commit / rollback cycles. Every cycle is judged
+// like the single one of TestRollback.
+func TestRevisitedStates(t *testing.T) {
+	ev.Rapid(t, 400, 6000)
+	rapid.Check(t, func(rt *rapid.T) {
+		db := memkv.New()
+		var m *wmkit.Machine
+		m = wmkit.New(db, func(f string, a ...any) {
+			rt.Fatalf("%s\nhistory: %s", fmt.Sprintf(f, a...), m.History())
+		})
+		pool := wmkit.GenKeyPool(rt, gen.Uniform(rt, 2, 3, "npool"))
+		change := func(label string) {
+			ki := gen.Uniform(rt, 0, len(pool)-1, label+"ki")
+			if gen.Chance(rt, 12, label+"del") {
+				if m.Model[string(pool[ki])].Key != nil {
+					m.Delete(pool[ki])
+				}
+				return
+			}
+			m.Update(pool[ki], []byte{byte(1 + gen.Uniform(rt, 0, 2, label+"v")), byte(ki)})
+		}
+		seen := map[string]int{}
+		state := func() string {
+			s := ""
+			for _, e := range wmkit.Entries(m.Model) {
+				s += fmt.Sprintf("%x=%x;", e.Key, e.Value)
+			}
+			return s
+		}
+		cycles, revisits, cyclesAfterCycle := 0, 0, 0
+		for i := gen.Uniform(rt, 8, 30, "steps"); i > 0; i-- {
+			if gen.Chance(rt, 65, "plain") {
+				change("p")
+				if gen.Chance(rt, 25, "second") {
+					change("q")
+				}
+				m.Commit(gen.Pick(rt, []int{0, 1, 2, 64}, "level"))
+				for j := gen.Pick(rt, []int{0, 1, 1, 2}, "gc"); j > 0; j-- {
+					m.GC()
+				}
+				if seen[state()]++; seen[state()] > 1 {
+					revisits++
+				}
+				continue
+			}
+			// a cycle
+			cpRoot := append([]byte(nil), m.T.Root()...)
+			cpWeight := m.T.Weight()
+			cpModel := map[string]refwmpt.Entry{}
+			for k, v := range m.Model {
+				cpModel[k] = v
+			}
+			entry := gen.Pick(rt, []string{"Rollback", "RollbackTrie"}, "entry")
+			m.Logf("SaveRoot")
+			m.T.SaveRoot()
+			for j := gen.Uniform(rt, 1, 3, "nchanges"); j > 0; j-- {
+				change("c")
+			}
+			before := keysOf(db)
+			m.Commit(gen.Pick(rt, []int{0, 1, 2, 64}, "clevel"))
+			if seen[state()] > 0 {
+				revisits++
+			}
+			var created []string
+			for k := range keysOf(db) {
+				if !before[k] {
+					created = append(created, k)
+				}
+			}
+			if gen.Chance(rt, 40, "gcbetween") {
+				m.GC()
+			}
+			m.Logf("%s", entry)
+			switch {
+			case entry == "Rollback":
+				m.T.Rollback()
+			case cpWeight == 0:
+				m.T.RollbackTrie(nil)
+			default:
+				m.T.RollbackTrie(wmpt.NewHashNode(append([]byte(nil), cpRoot...), cpWeight))
+			}
+			m.Model = cpModel
+			m.Dirty = false
+			when := fmt.Sprintf("cycle %d, after %s", cycles+1, entry)
+			if got := m.T.Root(); !bytes.Equal(got, cpRoot) {
+				m.Fail("%s: Root() = %x, checkpoint root %x", when, got, cpRoot)
+			}
+			if got := m.T.Weight(); got != cpWeight {
+				m.Fail("%s: Weight() = %d, checkpoint weight %d", when, got, cpWeight)
+			}
+			for _, k := range created {
+				if db.Has([]byte(k)) {
+					m.Fail("%s: node %x was created only by the rolled-back commit and is still in storage", when, k)
+				}
+			}
+			wmkit.ObserveTrie(wmkit.Reopened(db, cpRoot, cpWeight), cpModel, nil, m.Fail, when+": trie reopened at the checkpoint")
+			wmkit.ObserveTrie(m.T, cpModel, nil, m.Fail, when+": the rolled-back trie itself")
+			if cycles > 0 {
+				cyclesAfterCycle++
+			}
+			cycles++
+		}
+		m.Commit(0)
+		m.GC()
+		m.GC()
+		wmkit.ObserveTrie(wmkit.Reopened(db, m.T.Root(), m.T.Weight()), m.Model, nil, m.Fail, "end of the small world")
+		cls := []string{"small-world"}
+		if cycles >= 2 {
+			cls = append(cls, "several-rollback-cycles-in-one-life")
+		}
+		if revisits > 0 {
+			cls = append(cls, "whole-state-revisited")
+		}
+		ev.Case(m.History(), cycles >= 2 && revisits > 0, cls...)
+	})
+}
